@@ -23,6 +23,13 @@ const MAX_RECURSION_DEPTH: usize = 40;
 const MAX_DIMENSION_ARRAY: usize = 2;
 /// How many nesting of brackets can we have in an variable, eg `a[b[e]]` counts as 2
 const MAX_NUM_LEFT_BRACKETS: usize = 4;
+/// Operator, filter, test, attribute and subscript chains (`a + b + c`, `a.b.c`, `a | f | g`) are
+/// parsed in a loop but build a tree that gets one level deeper with each link, and the compiler
+/// recurses on that tree: we limit the depth of the tree an expression can have
+const MAX_EXPRESSION_DEPTH: usize = 256;
+/// How many `elif` a single `if` can chain: each one is parsed by recursion and nests one `if`
+/// node deeper
+const MAX_ELIF_DEPTH: usize = 500;
 
 // From https://matklad.github.io/2020/04/13/simple-but-powerful-pratt-parsing.html
 
@@ -130,6 +137,11 @@ pub struct Parser<'a> {
     recursion_depth: usize,
     // We limit the number of nesting for brackets in idents
     num_left_brackets: usize,
+    // (Upper bound of) the depth of the expression tree built so far by the current call of
+    // `inner_parse_expression`
+    expr_height: usize,
+    // How many `elif` we are currently nested in
+    elif_depth: usize,
     blocks_seen: HashSet<String>,
     components_seen: HashMap<String, Span>,
     output: ParserOutput,
@@ -148,6 +160,8 @@ impl<'a> Parser<'a> {
             recursion_depth: 0,
             array_dimension: 0,
             num_left_brackets: 0,
+            expr_height: 0,
+            elif_depth: 0,
             blocks_seen: HashSet::with_capacity(10),
             components_seen: HashMap::with_capacity(10),
             output: ParserOutput::default(),
@@ -202,6 +216,18 @@ impl<'a> Parser<'a> {
             None => Err(self.eoi()),
             Some(c) => Ok(c),
         }
+    }
+
+    /// Called every time the expression being built is wrapped in a new node by one of the loops
+    fn grow_expression(&mut self) -> TeraResult<()> {
+        self.expr_height += 1;
+        if self.expr_height > MAX_EXPRESSION_DEPTH {
+            return Err(Error::syntax_error(
+                "The expression is too complex".to_string(),
+                &self.current_span,
+            ));
+        }
+        Ok(())
     }
 
     fn is_in_loop(&self) -> bool {
@@ -282,6 +308,7 @@ impl<'a> Parser<'a> {
         };
 
         self.num_left_brackets -= 1;
+        self.grow_expression()?;
 
         Ok(expr)
     }
@@ -344,6 +371,7 @@ impl<'a> Parser<'a> {
                             span.clone(),
                         ));
                     } else {
+                        self.grow_expression()?;
                         expr = Expression::GetAttr(Spanned::new(
                             GetAttr {
                                 expr,
@@ -691,7 +719,10 @@ impl<'a> Parser<'a> {
                 &self.current_span,
             ));
         }
+        // The sub-expression starts its own tree; once done it is one level below ours
+        let outer_height = std::mem::take(&mut self.expr_height);
         let res = self.parse_expr_bp(min_bp);
+        self.expr_height = outer_height.max(self.expr_height + 1);
         self.recursion_depth -= 1;
         res
     }
@@ -820,6 +851,7 @@ impl<'a> Parser<'a> {
                     let expr = self.parse_expression(0)?;
                     expect_token!(self, Token::Ident("else"), "else")?;
                     let false_expr = self.parse_expression(0)?;
+                    self.grow_expression()?;
                     span.expand(&self.current_span);
                     return Ok(Expression::Ternary(Spanned::new(
                         Ternary {
@@ -878,7 +910,9 @@ impl<'a> Parser<'a> {
                     ))
                 }
             };
+            self.grow_expression()?;
             if negated {
+                self.grow_expression()?;
                 lhs = Expression::UnaryOperation(Spanned::new(
                     UnaryOperation {
                         op: UnaryOperator::Not,
@@ -1140,7 +1174,16 @@ impl<'a> Parser<'a> {
         let false_body = match &self.next {
             Some(Ok((Token::Ident("elif"), _))) => {
                 self.next_or_error()?;
-                vec![Node::If(self.parse_if()?)]
+                self.elif_depth += 1;
+                if self.elif_depth > MAX_ELIF_DEPTH {
+                    return Err(Error::syntax_error(
+                        format!("An `if` can only have up to {MAX_ELIF_DEPTH} `elif`."),
+                        &self.current_span,
+                    ));
+                }
+                let elif = self.parse_if()?;
+                self.elif_depth -= 1;
+                vec![Node::If(elif)]
             }
             Some(Ok((Token::Ident("else"), _))) => {
                 self.next_or_error()?;
